@@ -248,8 +248,8 @@ def attr_decl(spec):
 def st_attr_pair():
     from hypothesis import strategies as st
     use = st.sampled_from(['optional', 'required', 'prohibited'])
-    tp = st.sampled_from(['xs:int', 'xs:string', 'xs:decimal', 'xs:byte'])
-    fx = st.sampled_from([None, None, '5', '7'])
+    tp = st.sampled_from(['xs:int', 'xs:string', 'xs:decimal', 'xs:byte', 'xs:token', 'xs:normalizedString'])
+    fx = st.sampled_from([None, None, '5', '7', ' A  B ', 'A B', '05'])
     one = st.tuples(use, tp, fx)
     spec = st.fixed_dictionaries({
         'attrs': st.dictionaries(st.sampled_from(['a', 'b']), one, max_size=2),
@@ -296,9 +296,17 @@ def judge_attrs(ver, base, derived, st):
     if base != derived:
         st.nt((ver, str(base), str(derived)))
     pre = {'': '', 'urn:t': 't:', 'urn:o': 'o:'}
+    # string-like declarations (and fixed values with blanks) get values whose whitespace matters
+    texty = {n_ for sp in (base, derived) for n_, u in sp['attrs'].items()
+             if u[1] in ('xs:string', 'xs:token', 'xs:normalizedString') or (u[2] and ' ' in u[2])}
+
+    def values_of(name):
+        # instance values are whitespace-normal: a literal with leading / doubled blanks maps to different VALUES under
+        # preserve and collapse, so string -> token legitimately changes its verdict (XSD's own whiteSpace anomaly)
+        return ['A B', 'AB', '5', '05'] if (name[0] == '' and name[1] in texty) else ATTR_VALUES
     for r in range(0, 4):
         for names in itertools.combinations(ATTR_POOL, r):
-            for vals in itertools.product(ATTR_VALUES, repeat=len(names)):
+            for vals in itertools.product(*[values_of(n_) for n_ in names]):
                 a = ' '.join('%s%s="%s"' % (pre[ns], n, v) for (ns, n), v in zip(names, vals))
                 mk = lambda el: '<t:%s xmlns:t="urn:t" xmlns:o="urn:o" %s/>' % (el, a)
                 if s.is_valid(mk('d')) and not s.is_valid(mk('b')):
@@ -326,6 +334,7 @@ def shards(tier, seed):
         out.append(('wildpairs', ver, tier, seed))
         for k in range(2):
             out.append(('compositor', ver, k, tier, seed))
+        out.append(('attrfixed', ver, tier, seed))
         out.append(('facets', ver, tier, seed))
         out.append(('attrs', ver, tier, seed))
         out.append(('redefine', ver, tier, seed))
@@ -352,6 +361,21 @@ def run_shard(desc):
                     for r in judge_content(ver, b, d, st, False, op):
                         core.report(st, PROPERTY, r)
         st.sample({'ver': ver, 'bases from': 'small scope, depth 2', 'example': cm.show(pool[len(pool) // 3])})
+        return st
+    if desc[0] == 'attrfixed':
+        # exhaustive: ONE attribute re-declared in the restriction, every (type, fixed) x (type, fixed) pair
+        _, ver, tier, seed = desc
+        tps = ['xs:int', 'xs:string', 'xs:decimal', 'xs:byte', 'xs:token', 'xs:normalizedString']
+        fxs = [None, '5', '7', ' A  B ', 'A B', '05']
+        for t1 in tps:
+            for f1 in fxs:
+                for t2 in tps:
+                    for f2 in fxs:
+                        b = {'attrs': {'a': ('optional', t1, f1)}, 'gref': None, 'wc': None}
+                        d = {'attrs': {'a': ('optional', t2, f2)}, 'gref': None, 'wc': None}
+                        for r in judge_attrs(ver, b, d, st):
+                            core.report(st, PROPERTY, r)
+        st.sample({'ver': ver, 'attribute re-declaration matrix': '6 types x 6 fixed values, squared'})
         return st
     if desc[0] == 'compositor':
         # exhaustive: a root choice / sequence of 2-3 distinct element leaves x group occurrence x leaf optionality,
